@@ -144,11 +144,15 @@ func (propC02) Gen(seed uint64, ex map[string]bool) interface{} {
 	if fsdoc {
 		hot, late = true, false
 	}
+	sharedCtx := r.P(25)
 	for t := 0; t < nt; t++ {
 		var ops []c02Op
 		n := r.Range(1, maxCalls)
 		for i := 0; i < n; i++ {
 			v := fmt.Sprintf("t%d_%d", t, i)
+			if sharedCtx && r.P(60) {
+				v = "shared"
+			}
 			if hot && r.P(65) {
 				// conflicting versions of one name: checked for linearizability, not against a fixed expectation
 				ver := t*10 + i + 1
@@ -211,7 +215,17 @@ func (propC02) Gen(seed uint64, ex map[string]bool) interface{} {
 
 const c02Shared = "S:{{ v }}{% for i in l %}{{ i }}{{ tick() }}{% endfor %}{{ m.k|upper }}"
 
+// c02SharedCtx is ONE context object that several tasks pass to their calls at the same time (a read-only value
+// shared by goroutines is ordinary use: the engine has no business writing to it). Rebuilt for every run.
+var c02SharedCtx map[string]interface{}
+
 func c02Ctx(v string) map[string]interface{} {
+	if v == "shared" {
+		if c02SharedCtx == nil {
+			c02SharedCtx = map[string]interface{}{"v": "shared", "l": []interface{}{"a", "b", "c"}, "m": map[string]interface{}{"k": "kv", "j": 2}, "p": &Person{Name: "Pshared"}}
+		}
+		return c02SharedCtx
+	}
 	return map[string]interface{}{"v": v, "l": []interface{}{"a", "b", "c"}, "m": map[string]interface{}{"k": "kv", "j": 2}, "p": &Person{Name: "P" + v}}
 }
 
@@ -328,6 +342,8 @@ func (propC02) Run(scI interface{}) *Outcome {
 	w := simrt.Begin(simrt.Config{Seed: sc.WorldSeed, PoolPolicy: sc.Pool, MapOrder: simrt.OrderSorted, ClockStart: 1_700_000_000e9, ClockStep: 1e6,
 		PreemptDen: sc.PreemptDen, PCTSteps: sc.PCT, Explicit: sc.Explicit, Schedule: sc.Schedule})
 	defer simrt.End()
+	c02SharedCtx = nil
+	c02Ctx("shared") // built here, before any task exists
 	w.UseSimFS()
 	twig.SetDebugWriter(io.Discard)
 	saved := twig.VerifSwapGlobals(nil)
